@@ -3,7 +3,8 @@
    running interpreter and from the two slugify sources), proofs in Sect/SlugProofs.v. *)
 From Coq Require Import List NArith Arith Bool.
 From MV Require Import Base.PyStr Base.Res Refs.RUtil Refs.Anchors Sect.Slug Sect.SlugTables Sect.SlugProofs
-                       Sect.SlugEdge Sect.SlugIds Sect.SlugResolve Gen.PyUnicodeSlug Sect.SlugPy.
+                       Sect.SlugEdge Sect.SlugIds Sect.SlugResolve Gen.PyUnicodeSlug Sect.SlugPy
+                       Sect.SlugSrcLib Gen.SlugSrc Sect.SlugSrcProofs.
 Import ListNotations.
 Local Open Scope nat_scope.
 
@@ -169,6 +170,54 @@ Theorem C10_section_ids_distinct : forall nodes ids counters,
             NoDup l /\ forall x, In x l -> ~ In x ids.
 Proof. exact assign_ids_distinct. Qed.
 Print Assumptions C10_section_ids_distinct.
+
+(* ---- round 3: the CODE regenerated from the sources on this run (Gen/SlugSrc.v) ---- *)
+
+(* default_slugify (base.py) and slugify (plug-in) as translated = the model *)
+Theorem C10_slugify_src : forall lower is_space is_word t,
+  default_slugify_src lower is_word t = default_slugify lower is_word render_class t /\
+  plugin_slugify_src lower is_space is_word t = plugin_slugify lower is_space is_word plugin_class t.
+Proof. intros. split; [apply default_slugify_src_eq | apply plugin_slugify_src_eq]. Qed.
+Print Assumptions C10_slugify_src.
+
+(* compute_unique_slug translated statement by statement (title comprehension, slug function call,
+   `while slug in slugs` on fuel |slugs|+1) = the model *)
+Theorem C10_compute_unique_slug_src : forall default children slugs sf,
+  compute_unique_slug_src default children slugs sf =
+  compute_unique_slug (sel default sf) children slugs.
+Proof. exact compute_unique_slug_src_eq. Qed.
+Print Assumptions C10_compute_unique_slug_src.
+
+(* least-suffix rule for the regenerated compute_unique_slug (it terminates, too) *)
+Theorem C10_suffix_rule_src : forall default children slugs sf base,
+  sel default sf (inline_title children) = Ok base ->
+  exists r, compute_unique_slug_src default children slugs sf = Ok r /\
+    ((r = base /\ ~ In base slugs) \/
+     (exists k, 1 <= k /\ r = suffixed base (N.of_nat k) /\ In base slugs /\ ~ In r slugs /\
+                forall j, 1 <= j < k -> In (suffixed base (N.of_nat j)) slugs)).
+Proof.
+  intros default children slugs sf base Hb.
+  destruct (suffix_rule_src default children slugs sf base Hb) as (r & H & Hr).
+  exists r. split; auto. apply SuffixRule_readable. exact Hr.
+Qed.
+Print Assumptions C10_suffix_rule_src.
+
+(* the document loop over the regenerated function: distinct slugs, and the full assignment rule *)
+Theorem C10_slugs_nodup_src : forall depth default sf hs,
+  NoDup (assigned (fst (render_slugs_src depth default sf hs))).
+Proof. exact slugs_nodup_src. Qed.
+Print Assumptions C10_slugs_nodup_src.
+
+Theorem C10_document_rule_src : forall depth default sf hs,
+  SeqRule depth (sel default sf) [] hs (fst (render_slugs_src depth default sf hs)).
+Proof. exact document_rule_src. Qed.
+Print Assumptions C10_document_rule_src.
+
+(* the plug-in's unique_slug as translated: least-suffix result, added to the set *)
+Theorem C10_plugin_unique_slug_src : forall slug slugs,
+  exists u, unique_slug_src slug slugs = Ok (u, u :: slugs) /\ SuffixRule slug slugs u.
+Proof. exact unique_slug_src_rule. Qed.
+Print Assumptions C10_plugin_unique_slug_src.
 
 (* ---- the code as it was before the repairs ---- *)
 
